@@ -11,7 +11,8 @@ Main theorems (helper lemmas in between):
   `slice.indices`; scalars in `[-n, n)` select one row, `k ≥ n` is an `IndexError`.
 * `slice_rows` (+ `slice_rows_cell`, `cell_plain`, `cell_enum`) — `get` returns `rows.drop lo |>.take (hi-lo)`
   projected on the requested columns, labelled `lo..hi-1`.
-* `selector_slice_rows`, `selector_scalar_row`, `selector_slice_labels`, `tableGet_part`, `pixels_join_slice`
+* `selector_slice_rows`, `selector_slice_rows_wide` (bounds beyond the end), `selector_scalar_row`,
+  `selector_slice_labels`, `tableGet_part`, `pixels_join_slice`
   — every in-domain key on any selector returns the corresponding part of the whole table, labelled
   with the row numbers.
 * `column_selection_commutes`, `column_selection_commutes_one` — `sel[cols][key] = (sel[key])[cols]`.
@@ -1423,6 +1424,54 @@ theorem selector_slice_labels (s : Selector) (W : Frame) (lo hi : Option Int)
   congr 1
   · simp
   · omega
+
+
+/-! ### bounds beyond the end of the table are clipped -/
+
+/-- bounds beyond the end: `_process_slice` passes them through unclipped, as natural numbers whose
+clipping to `n` is Python's `slice.indices` -/
+theorem processKey_slice_wide (n : Nat) (lo hi : Option Int) (hlo : InDomW n lo) (hhi : InDomW n hi) :
+    ∃ a b : Nat, processKey n (.slice lo hi none) = .ok ((a : Int), (b : Int))
+      ∧ min a n = (pySliceIndices n lo hi).1 ∧ min b n = (pySliceIndices n lo hi).2 := by
+  simp only [processKey, true_or, if_true, processSlice, pySliceIndices]
+  refine ⟨(normBound n 0 lo).toNat, (normBound n n hi).toNat, ?_, ?_, ?_⟩
+  · have h1 : 0 ≤ normBound n 0 lo := by
+      cases lo <;> simp only [normBound, InDomW] at * <;> (try split) <;> omega
+    have h2 : 0 ≤ normBound n n hi := by
+      cases hi <;> simp only [normBound, InDomW] at * <;> (try split) <;> omega
+    rw [Int.toNat_of_nonneg h1, Int.toNat_of_nonneg h2]
+  · cases lo <;> simp only [normBound, clampBound, InDomW] at * <;> (repeat' split) <;> omega
+  · cases hi <;> simp only [normBound, clampBound, InDomW] at * <;> (repeat' split) <;> omega
+
+/-- a part whose ends lie beyond the frame is the part with the ends clipped -/
+theorem framePart_clamp (W : Frame) (a b : Nat) (h : W.index.length = W.rows.length) :
+    framePart W (min a W.rows.length) (min b W.rows.length) = framePart W a b := by
+  unfold framePart
+  simp only [Frame.mk.injEq, true_and, and_true]
+  constructor
+  · rw [← h]; exact drop_take_clamp W.index a b
+  · exact drop_take_clamp W.rows a b
+
+/-- **selector_slice_rows_wide** — the row-range theorem on the widened domain: bounds may lie beyond
+the end of the table (`bins()[7:12]` with 10 bins, `pixels()[:1000]`, `bins()[12:15]`).  The result is
+the part `[a, b)` of the whole table with `(a, b) = slice(lo, hi).indices(n)` — the rows that exist in
+the range, labelled with their row numbers — exactly what Python slicing returns. -/
+theorem selector_slice_rows_wide (s : Selector) (W : Frame) (lo hi : Option Int)
+    (hn : s.nmax = srcLen s.src) (hj : srcJoin s.src = false)
+    (hW : s.getRows (.slice none none none) = .ok W) (hlen : W.rows.length = s.nmax)
+    (hlo : InDomW s.nmax lo) (hhi : InDomW s.nmax hi) :
+    s.getRows (.slice lo hi none) =
+      .ok (framePart W (pySliceIndices s.nmax lo hi).1 (pySliceIndices s.nmax lo hi).2) := by
+  have hc := selector_whole_contig s W hn hj hW
+  obtain ⟨a, b, hk, ha, hb⟩ := processKey_slice_wide s.nmax lo hi hlo hhi
+  rw [getRows_whole] at hW
+  rw [getRows_eq, hk]
+  simp only
+  rw [slice_part s W a b hn hj hW, ← ha, ← hb, ← hlen]
+  rw [framePart_clamp W a b (by rw [hc, labels_length])]
+
+example : InDomW 10 (some 7) ∧ InDomW 10 (some 12) ∧ pySliceIndices 10 (some 7) (some 12) = (7, 10)
+    ∧ processSlice 10 (some 7) (some 12) = (7, 12) := by decide
 
 
 /-! ### `Cooler.pixels(join=True)` -/
